@@ -31,6 +31,8 @@ def build(desc, seed=0, via=None, **ctor_kw):
         via = CURRENT_VIA          # set by the runner from case['via'] so that every module supports it unchanged
     if via in ('history', 'history2'):
         return _build_via_history(desc, seed, order=via, **ctor_kw)
+    if isinstance(via, str) and via.startswith('route:'):
+        return _build_route(desc, seed, via.split(':', 1)[1], **ctor_kw)
     from geomdl import BSpline, NURBS
     pd = desc['pdim']
     mod = NURBS if desc['rational'] else BSpline
@@ -76,6 +78,63 @@ def build(desc, seed=0, via=None, **ctor_kw):
         for kv in kv_args:
             for j in range(len(kv)):
                 kv[j] = 0.5
+    return obj
+
+
+ROUTES = ['props', 'views', 'pickle', 'deepcopy', 'grid2d']
+
+
+def _build_route(desc, seed, route, **ctor_kw):
+    """the same definition reached through another documented construction route (DESIGN §6 wave 6):
+    props    - tuple properties: degree = (..), knotvector = (..) (curves: ctrlpts property instead of set_ctrlpts)
+    views    - sizes through ctrlpts_size_u/v/w, then the unweighted ctrlpts view and (rational) the weights view
+    grid2d   - surfaces: the ctrlpts2d grid view; others: as 'views'
+    pickle   - main route, then a pickle round trip;   deepcopy - main route, then copy.deepcopy"""
+    import pickle
+    from geomdl import BSpline, NURBS
+    if route in ('pickle', 'deepcopy'):
+        obj = build(desc, seed, via='fresh', **ctor_kw)
+        return pickle.loads(pickle.dumps(obj)) if route == 'pickle' else copy.deepcopy(obj)
+    pd = desc['pdim']
+    mod = NURBS if desc['rational'] else BSpline
+    kw = dict(ctor_kw)
+    if not desc.get('normalize_kv', True):
+        kw['normalize_kv'] = False
+    obj = {1: mod.Curve, 2: mod.Surface, 3: mod.Volume}[pd](**kw)
+    pts, w, pw = net_points(desc, seed)
+    sizes = list(desc['sizes'])
+    degs = list(desc['degrees'])
+    kvs = [list(kv) for kv in desc['kvs']]
+    if pd == 1:
+        obj.degree = degs[0]
+    else:
+        obj.degree = tuple(degs) if route == 'props' else list(degs)
+    if route == 'grid2d' and pd == 2:
+        P = pw if desc['rational'] else pts
+        obj.ctrlpts2d = [[list(P[v + sizes[1] * u]) for v in range(sizes[1])] for u in range(sizes[0])]
+    elif route == 'props':
+        P = copy.deepcopy(pw if desc['rational'] else pts)
+        if pd == 1:
+            if desc['rational']:
+                obj.ctrlptsw = P
+            else:
+                obj.ctrlpts = P
+        else:
+            obj.set_ctrlpts(P, *sizes)
+    else:       # views
+        if pd >= 2:
+            for a, nm in enumerate('uvw'[:pd]):
+                setattr(obj, 'ctrlpts_size_' + nm, sizes[a])
+        obj.ctrlpts = copy.deepcopy(pts)
+        if desc['rational']:
+            obj.weights = list(w)
+    if pd == 1:
+        obj.knotvector = kvs[0]
+    elif route == 'props':
+        obj.knotvector = tuple(kvs)
+    else:
+        for a, nm in enumerate('uvw'[:pd]):
+            setattr(obj, 'knotvector_' + nm, kvs[a])
     return obj
 
 
